@@ -12,7 +12,8 @@ package main
 //  (d) with only the honest peer left the node reaches top-1 within 160 status rounds;
 //  (e) when caught up: state (height, validator sets byte for byte incl. order, powers
 //      and accumulators, AppHash, ReceiptsHash, LastBlockID), block store and application
-//      state (nonces, contract storage, key-value store, receipts, balances) equal those
+//      state (nonces, contract storage, key-value store and the length of every key's update
+//      history, receipts, balances) equal those
 //      of the node that followed consensus live.
 
 import (
@@ -89,7 +90,13 @@ func (d *director) report() {
 	to := d.timeouts
 	d.mtx.Unlock()
 	for i, h := range ex {
-		if h != int64(i)+1 {
+		if h != int64(i)+1+d.execBase {
+			if d.spec.restarted() {
+				// the application had committed execBase when the node was built again: the next block given to
+				// it must be execBase+1 (a lower one is applied twice, a higher one skips a block)
+				d.viol("block-executed-twice-or-skipped", fmt.Sprintf("the application of the restarted node was at height %d; execution trace after the restart %v: position %d is height %d", d.execBase, ex, i+1, h), nil)
+				break
+			}
 			d.viol("block-executed-out-of-order:"+d.mutAt(h), fmt.Sprintf("execution trace %v: position %d is height %d", ex, i+1, h), nil)
 			break
 		}
@@ -246,6 +253,9 @@ func (d *director) compareFinal() {
 		}
 		return true
 	}
+	if !cmpMapU("kv-history-length", app.KVHist, want.KVHist) {
+		return
+	}
 	if !cmpMapU("nonce", app.Nonces, want.Nonces) || !cmpMapS("balance", app.Balances, want.Balances) || !cmpMapS("kv", app.KV, want.KV) || !cmpMapS("receipt", app.Receipts, want.Receipts) {
 		return
 	}
@@ -258,6 +268,7 @@ func (d *director) compareFinal() {
 	}
 	d.run.Count("final_application_states_equal", 1)
 	d.run.Count("receipts_compared", int64(len(want.Receipts)))
+	d.run.Count("kv_history_lengths_compared", int64(len(want.KVHist)))
 	if d.spec.Kind == "control" {
 		d.run.Count("controls_passed", 1)
 	}
